@@ -3,6 +3,7 @@ More closed instances of `parse_no_panic` (helper lemmas for Props/C08): the val
 (builder/value.rs, builder/directives.rs, builder/base.rs) cannot hit a MATCHER or DISPATCH panic on any pair tree the
 grammar produces; what remains possible in the model are the text-dependent sites (`TextPanic`).
 -/
+import NitroVerif.Lemmas.ParseMoreStrLoop
 import NitroVerif.Lemmas.TypeNoPanic
 namespace NitroVerif.Shape
 open NitroVerif.Peg NitroVerif.Gen NitroVerif.Gen.Parts NitroVerif.Build
@@ -264,6 +265,62 @@ theorem safe_decodeChar (ctx : Ctx) (sc : Pair) (hd : DeepOk gList sc) (hr : sc.
             · exact h
           simp [OC_StringCharacter, h1, h2, h3, h4] at this
 
+theorem safe_unicode4Code (ctx : Ctx) (ch : Pair) : Safe (unicode4Code ctx ch) := by
+  unfold unicode4Code
+  dsimp only
+  split
+  · exact Safe.err trivial
+  · exact safe_parseHex _
+
+theorem safe_trailingSurrogate (ctx : Ctx) (ch : Pair) : Safe (trailingSurrogate ctx ch) := by
+  by_cases hr : ch.rule = R.EscapedUnicode4
+  · cases hc : unicode4Code ctx ch with
+    | error e => rw [trailingSurrogate_err ctx hr hc]; exact Safe.err (safe_unicode4Code ctx ch e hc)
+    | ok c => rw [trailingSurrogate_u4 ctx hr hc]; exact Safe.ok _
+  · rw [trailingSurrogate_other ctx hr]; exact Safe.ok _
+
+/-- the loop of `build_string_value` (fix fff8e9c: surrogate pairs) cannot end in a matcher / dispatch panic -/
+theorem safe_decodeChars (ctx : Ctx) : ∀ (l : List Pair), (∀ sc ∈ l, sc.rule = R.StringCharacter ∧ DeepOk gList sc) →
+    ∀ skip, Safe (decodeChars ctx skip l) := by
+  intro l
+  induction l with
+  | nil => intro _ skip; rw [decodeChars_nil]; exact Safe.ok _
+  | cons sc rest ih =>
+    intro h skip
+    have ih' := ih fun x hx => h x (List.mem_cons_of_mem _ hx)
+    cases skip with
+    | true => rw [decodeChars_skip]; exact ih' false
+    | false =>
+      obtain ⟨hr, hd⟩ := h sc (List.mem_cons_self ..)
+      obtain ⟨ch, hch, hdch, hoc⟩ := onlyChildOf_of_shape "StringCharacter" (hr ▸ acc_StringCharacter) hd
+      by_cases hu : ch.rule = R.EscapedUnicode4
+      · cases hcode : unicode4Code ctx ch with
+        | error e => rw [decodeChars_err_code ctx rest hoc hu hcode]; exact Safe.err (safe_unicode4Code ctx ch e hcode)
+        | ok code =>
+          have hpeek : Safe (peekTrailing ctx rest) := by
+            cases rest with
+            | nil => rw [peekTrailing_nil]; exact Safe.ok _
+            | cons sc2 r2 =>
+              obtain ⟨hr2, hd2⟩ := h sc2 (List.mem_cons_of_mem _ (List.mem_cons_self ..))
+              obtain ⟨ch2, _, _, hoc2⟩ := onlyChildOf_of_shape "StringCharacter" (hr2 ▸ acc_StringCharacter) hd2
+              rw [peekTrailing_cons ctx r2 (onlyChild_of_onlyChildOf hoc2)]
+              exact safe_trailingSurrogate ctx ch2
+          cases hpk : peekTrailing ctx rest with
+          | error e => rw [decodeChars_err_peek ctx rest hoc hu hcode hpk]; exact Safe.err (hpeek e hpk)
+          | ok tr =>
+            rw [decodeChars_u4 ctx rest hoc hu hcode hpk]
+            cases tr with
+            | none => exact Safe.bind (safe_charFromU32 _) fun c _ => Safe.map (ih' false)
+            | some t =>
+              show Safe (if isLeadSurrogate code = true then _ else _)
+              by_cases hl : isLeadSurrogate code = true
+              · rw [if_pos hl]
+                exact Safe.bind (safe_charFromU32 _) fun c _ => Safe.map (ih' true)
+              · rw [if_neg hl]
+                exact Safe.bind (safe_charFromU32 _) fun c _ => Safe.map (ih' false)
+      · rw [decodeChars_other ctx rest hoc hu]
+        exact Safe.bind (safe_decodeChar ctx sc hd hr) fun c _ => Safe.map (ih' false)
+
 theorem safe_stringValueChars (ctx : Ctx) (p : Pair) (hd : DeepOk gList p) (hr : p.rule = R.StringValue) :
     Safe (stringValueChars ctx p) := by
   obtain ⟨c, hc, hdc, hoc⟩ := onlyChildOf_of_shape "StringValue" (hr ▸ acc_StringValue) hd
@@ -279,8 +336,7 @@ theorem safe_stringValueChars (ctx : Ctx) (p : Pair) (hd : DeepOk gList p) (hr :
     · split
       · rename_i h1 h2 h3
         obtain ⟨_, hall⟩ := allChildren_of_shape (h3 ▸ acc_NormalStringValue) hdc
-        refine Safe.bind (Safe.mapM fun sc hsc => ?_) fun cs _ => Safe.ok _
-        exact safe_decodeChar ctx sc (hall sc hsc).2 (hall sc hsc).1
+        refine Safe.bind (safe_decodeChars ctx _ hall false) fun cs _ => Safe.ok _
       · rename_i h1 h2 h3
         have : c.rule ∈ OC_StringValue := by
           rcases hc with h | h
